@@ -112,6 +112,10 @@ def gen_text(rng, mode, rel, fresh):
     if r < 0.72:
         fresh[0] += 1
         return ("text", rng.choice(dirs) + "n%d" % fresh[0])
+    if r < 0.76:
+        # a directory that does not exist yet, left again with "..": the path only becomes resolvable once mkdir -p has run
+        fresh[0] += 1
+        return ("text", "m%d/../%s" % (fresh[0], rng.choice(POOL)))
     if r < 0.90:
         return ("text", rng.choice([
             "../x", "../in2/x", "../out/x", "new/..", "a/../b", "./a", "a//b", "", ".", "..",
@@ -624,6 +628,15 @@ def analyse(scn, init):
             stays.append(s)
         else:
             moves.append((s, d))
+    if scn["mode"] == "directory":
+        # tempren always processes deeper directories first (PathDepthSorter); an injected order that renames a
+        # directory before one of its selected descendants is not a processing order of the real program
+        order = [s_ for s_, _ in moves] + stays
+        seq = ["/".join(e["dir"].split("/") + _parts(e["rel"])) for e in scn["plan"]]
+        for i, a in enumerate(seq):
+            for b in seq[i + 1:]:
+                if b.startswith(a + "/"):
+                    return None
     dsts = [d for _, d in moves]
     # a selected symbolic link renamed onto a name that another entry is rendered to as well: once the real run
     # has done that rename the shared destination IS a link and "resolves elsewhere" (C06): not in this family
